@@ -21,6 +21,13 @@
 (*           the statement itself: ViaAccessors(req) = Direct(req) on the whole destination       *)
 (*           buffer, row padding included (undefined bits of x-formats excepted), and no source   *)
 (*           or mask is written.                                                                  *)
+(*   Hist  : accessor history on ONE image X (role s / m / d in a composite): a sequence of    *)
+(*           uses, before each of which callbacks are installed (pair A or B) or removed (D).     *)
+(*           The callbacks are not the identity: X was created over a window buffer, pair A / B   *)
+(*           redirects every access to a backing buffer a / b and counts calls.  Whatever the     *)
+(*           history, a use must behave as the same request on a directly addressed image holding *)
+(*           the effective contents (window, a or b), touch no other buffer, and go through the   *)
+(*           installed callbacks (and only them).                                                 *)
 (* The state of the one-step machine is the destination buffer last written.                  *)
 (* (Shared values are passed as operator arguments, which TLC evaluates once; see Formats.)   *)
 EXTENDS Formats, TraceIO
@@ -125,12 +132,46 @@ TEquiv ==
     /\ dst' = TraceLog[l].direct.dst
     /\ l' = l + 1
 
+(* ---- accessor history: callbacks installed, removed or swapped on an image already in use ---- *)
+Eff0(st) == CASE st.mode = "D" -> st.win0 [] st.mode = "A" -> st.a0 [] st.mode = "B" -> st.b0
+Eff1(st) == CASE st.mode = "D" -> st.win1 [] st.mode = "A" -> st.a1 [] st.mode = "B" -> st.b1
+
+UseOK(ev, f, st) ==
+    \* the buffers the installed callbacks do not lead to are never touched
+    /\ (st.mode # "D") => st.win1 = st.win0
+    /\ (st.mode # "A") => st.a1 = st.a0
+    /\ (st.mode # "B") => st.b1 = st.b0
+    \* same values as a directly addressed image holding the effective contents
+    /\ IF ev.role = "d"
+       THEN BufEquiv(f, ev.w, ev.h, ev.stride, Eff1(st), st.refx)
+       ELSE /\ Eff1(st) = Eff0(st)                                           \* reading does not write
+            /\ st.out = st.refout
+    \* every access goes through the installed callbacks, and there are none otherwise
+    /\ IF st.mode = "D" THEN st.reads = 0 /\ st.writes = 0
+       ELSE IF ev.role = "d" THEN st.writes > 0
+       ELSE st.reads > 0 /\ st.writes = 0
+
+HistOK(ev, f) ==
+    /\ Len(ev.steps) >= 2
+    /\ \A k \in DOMAIN ev.steps : UseOK(ev, f, ev.steps[k])
+    \* the buffers carry over from one use to the next
+    /\ \A k \in 1..(Len(ev.steps) - 1) :
+          /\ ev.steps[k + 1].win0 = ev.steps[k].win1
+          /\ ev.steps[k + 1].a0 = ev.steps[k].a1
+          /\ ev.steps[k + 1].b0 = ev.steps[k].b1
+
+THist ==
+    /\ l <= TraceLen /\ TraceLog[l].e = "Hist"
+    /\ HistOK(TraceLog[l], Fmt(Code(TraceLog[l].f))) = TRUE
+    /\ dst' = TraceLog[l].steps[Len(TraceLog[l].steps)].out
+    /\ l' = l + 1
+
 TReset ==
     /\ l <= TraceLen /\ TraceLog[l].e = "Reset"
     /\ dst' = <<>>
     /\ l' = l + 1
 
 TInit == l = 1 /\ dst = <<>>
-TNext == TReset \/ TFetch \/ TStore \/ TEquiv
+TNext == TReset \/ TFetch \/ TStore \/ TEquiv \/ THist
 TSpec == TInit /\ [][TNext]_<<l, dst>>
 =============================================================================
